@@ -92,6 +92,8 @@ def fns(toks, start, end):
             while toks[j][1] not in ("{", ";"):
                 if toks[j][1] == "(":
                     j = match_brace(toks, j, "(", ")")
+                elif toks[j][1] == "[":
+                    j = match_brace(toks, j, "[", "]")
                 j += 1
             if toks[j][1] == "{":
                 e = match_brace(toks, j)
